@@ -137,6 +137,22 @@ def handleLink (toks : List String) : Option String := do
   let l ← parseLink toks; let v ← argF64s toks "v"
   some s!"ok inv={tfs (v.map (Glm.linkInverse l))} der={tfs (v.map (Glm.linkInverseDeriv l))}"
 
+def lb7 : Float := 1e-7
+
+def handleLinkF (toks : List String) : Option String := do
+  let l ← parseLink toks; let v ← argF64s toks "v"
+  some s!"ok link={tfs (v.map (Glm.linkFn l))} der={tfs (v.map (Glm.linkFnDeriv lb7 l))}"
+
+/-- `deflink power=..`: index of the link `TweedieRegressorValidParams::link()` selects when none was set -/
+def handleDefLink (toks : List String) : Option String := do
+  let power ← argF64 toks "power"
+  -- `ParamGuard::check`: powers strictly between 0 and 1 are rejected before a link is selected
+  if 0 < power && power < 1 then some "err InvalidTweediePower" else
+  match Glm.defaultLink power with
+  | .identity => some "ok 0"
+  | .log => some "ok 1"
+  | .logit => some "ok 2"
+
 def handleGCost (toks : List String) : Option String := do
   let l ← parseLink toks
   let power ← argF64 toks "power"; let alpha ← argF64 toks "alpha"
@@ -175,6 +191,8 @@ def handle (toks : List String) : String :=
     | "dev" :: rest => handleDev rest
     | "ddev" :: rest => handleDDev rest
     | "link" :: rest => handleLink rest
+    | "linkf" :: rest => handleLinkF rest
+    | "deflink" :: rest => handleDefLink rest
     | "gcost" :: rest => handleGCost rest
     | "ggrad" :: rest => handleGGrad rest
     | "gpredict" :: rest => handleGPredict rest
